@@ -15,6 +15,13 @@ Explicit-state search over operation histories of the real ``biogeme.database.Da
       is returned for de-duplication.
 * formulas (conditions, new columns) are evaluated by the real engine through the library; the reference
   evaluates the same term per row in plain Python.
+* a second search runs over a *wide* alphabet -- conditions whose values are non-zero but of any magnitude (tiny
+  factors, a column used as condition, a raw non-zero number), tiny scale factors, a stored column of tiny values and
+  a formula that is undefined (NaN) on some rows -- composed with remove / panel to its own depth bound; three sweeps
+  vary one of these symbols over its whole menu after a few earlier operations: every magnitude x every way a tiny
+  condition value can arise; every placement of undefined values in a defined variable, then panel / remove /
+  flatten; every placement of {value, other value, undefined} in one column of a raw frame handed directly to
+  ``biogeme.tools.database.flatten_database`` (the function behind generate_flat_panel_dataframe).
 
 The reference model never imports biogeme / pandas / numpy.
 """
@@ -44,7 +51,16 @@ RULE = ('one case per executed operation: (root table, history, operation, rando
         'values_from_database, flattening with detected and given identical columns, size queries.  Six hand-written '
         'chains of 6-7 operations per root go beyond the depth bound.  A case is non-trivial when it is executed after '
         'at least one earlier operation or with a non-identity random answer; distinct = distinct (root, history, '
-        'operation, answer).  (a|b = quick|thorough)')
+        'operation, answer).  Wide alphabet (second search, depth 3 from the same roots; reduced observer list in quick, '
+        'complete in thorough): remove x {c==1, the column x itself, x*2^-40, (c-1)*2^-27, the raw number 2^-40, the stored '
+        'tiny column t}, add_column t = x*2^-34, define_variable w = log(1-2*(c==1)) (NaN where c==1), scale_column x by '
+        '2^-40 | also 1e-9 and c by 2^40, panel; flatten_database called directly (detected / given identical columns) in every '
+        'state of both searches.  Sweeps: 8|13 magnitudes 2^-20..2^-1000, 1e-7..1e-300, 2^40, 2^100 x 5 ways a condition value '
+        'of that magnitude arises (formula factor, scale then column as condition, stored column as condition, signed '
+        '(c-1)*m, raw number) x 4 earlier histories x 3 roots; all 31 placements of NaN in a defined variable x base '
+        '0,x|0,id,x x 2|5 histories (define, [remove], panel, flatten ...) x 3 roots; all 3^5 columns over {v1, v2, NaN} x '
+        '2|5 raw frames (contiguous / interleaved / unsorted / single / singleton individuals; range, duplicate, permuted, '
+        'gapped labels) x identical columns detected / given / given with all-undefined individuals.  (a|b = quick|thorough)')
 ASSUMPTIONS = [
     'tables have 5 rows (ids grouped 2-1-2) and 4 numeric columns with dyadic values so that the reference arithmetic is '
     'exact; three root tables: RangeIndex / permuted integer labels with unsorted individual ids / duplicate labels '
@@ -52,8 +68,15 @@ ASSUMPTIONS = [
     'library randomness enters only through numpy.random.randint, numpy.random.shuffle and DataFrame.sample(frac=1) '
     '(owned; a call outside an enumerated operation, or a different use of the seams, is a harness error)',
     'excludedData is the number of rows deleted by the most recent remove (the documented per-call meaning)',
-    'formulas are restricted to + - * comparisons and/or on existing columns: nothing is expected to raise inside the engine; '
-    'refusals (existing column name, out-of-range positions, non-panel flattening) are not part of the alphabet',
+    'formulas are restricted to + - * comparisons and/or on existing columns, plus log of an indicator expression (0 or '
+    'undefined): nothing is expected to raise inside the engine; refusals (existing column name, out-of-range positions, '
+    'non-panel flattening, extract_rows / Database() on a table holding NaN) are not part of the alphabet',
+    '"non-zero" in the statement has no threshold: a condition value of 2^-1000 deletes the row, and the count says so; '
+    'magnitudes stay within 1e-301..1e31 (the engine refuses values near the overflow limit and subnormal literals)',
+    'undefined values (NaN) are values of the table: every operation must carry them along; conditions and counted values '
+    'never refer to an undefined cell (whether NaN is "non-zero" / "equal to NaN" is not fixed by the statement); in the '
+    'flat table a column that is undefined on all observations of an individual may be laid out as identical or as '
+    'varying (both keep every value), any other column with an undefined cell next to a defined one must be varying',
     'the panel sort must order the rows by individual id; the order of the rows inside one individual is not fixed by '
     'the statement (pandas sorts unstably): the reference adopts the observed order and counts the event',
     'fold sizes and the distribution of the samples are not part of the statement and are not checked',
